@@ -1,9 +1,12 @@
 #!/bin/sh
-# try_mutant.sh <patch.diff> <property id> [tier]   -- apply a seeded change to /repo, run the check, undo it straight afterwards
+# try_mutant.sh <patch.diff> <property id> [tier]   -- apply a seeded change to the repo, run the check, undo it straight afterwards
+# REPO (default /repo) is the tree the change is applied to and the checks run against.
 P="$1"; ID="$2"; T="${3:-quick}"
-cd /repo && git diff --quiet || { echo "/repo is dirty"; exit 2; }
-git -C /repo apply "$P" || exit 2
-cd /verif && ./check "$ID" "$T" > /tmp/try-mutant.$$ 2>&1; RC=$?
-git -C /repo checkout -- .
+REPO="${REPO:-/repo}"; export VERIF_REPO="$REPO"
+V="$(cd "$(dirname "$0")/.." && pwd)"
+git -C "$REPO" diff --quiet || { echo "$REPO is dirty"; exit 2; }
+git -C "$REPO" apply "$P" || exit 2
+(cd "$V" && ./check "$ID" "$T") > /tmp/try-mutant.$$ 2>&1; RC=$?
+git -C "$REPO" checkout -- .
 grep -E "^(VIOLATION|UNCONFIRMED|INCONCLUSIVE|KNOWN|HAVOC|VALIDATION|NOTE)|quick:|thorough:" /tmp/try-mutant.$$ | cut -c1-400
 echo "exit=$RC"; rm -f /tmp/try-mutant.$$
